@@ -264,6 +264,8 @@ func init() {
 		c07Shape(s, e, lc, "NewLockedCalls", "newLockedCallsShape")
 		c07Shape(s, e, rm, "ResourceManager.GetResource", "getResourceShape")
 		c07Shape(s, e, rm, "NewResourceManager", "newResourceManagerShape")
+		c07Shape(s, e, rm, "ResourceManager.Close", "rmCloseShape")
+		c07Shape(s, e, rm, "ResourceManager.Inject", "rmInjectShape")
 		c07Fields(s, e, sf, "call", "callFields")
 		c07Fields(s, e, sf, "flightGroup", "flightGroupFields")
 		c07Fields(s, e, lc, "lockedGroup", "lockedGroupFields")
